@@ -366,6 +366,9 @@ func run(c *mc.Ctx) {
 		}
 		c.Inc("groups")
 		c.Fact("group:" + g.Kind)
+		if g.caseAlpha() {
+			c.Fact("group:" + g.Kind + ":case-variants")
+		}
 	}
 }
 
@@ -432,6 +435,19 @@ func guards(r *mc.Result, tier string) []string {
 			if r.Facts["val:"+v.Label] == 0 && runaway == 0 {
 				f = append(f, "alphabet value never used: "+v.Label)
 			}
+		}
+	}
+	// sub-space (vi): every value used, the pairs are what they are meant to be, and they reached code
+	// that answered with something else than an error
+	for _, v := range CaseVals {
+		if r.Facts["val:"+v.Label] == 0 {
+			f = append(f, "case-variant value never used: "+v.Label)
+		}
+	}
+	f = append(f, casePairProblems()...)
+	for _, fact := range []string{"group:call:case-variants", "group:form:case-variants", "case:returned-a-value", "case:router-test-matched"} {
+		if r.Facts[fact] == 0 {
+			f = append(f, "never observed: "+fact)
 		}
 	}
 	for _, form := range Forms {
@@ -552,6 +568,7 @@ func init() {
 			"(ii) the %d operator / lookup / call forms of the expression tree on every pair (unary: every value) through Evaluator.Expression; "+
 			"(iii) every template string of length <= 6 (thorough 7) over the %d-symbol alphabet, every string of <= %d tokens over a %d-token vocabulary inside @( ), and %d generated families of deep / long templates (<= 400 bytes), each through Evaluator.Template (with and without escaping), Evaluator.TemplateValue and run.EvaluateTemplate / EvaluateTemplateValue / EvaluateTemplateText of a real waiting run; "+
 			"(iv) a webhook-JSON number with a huge exponent as an argument of every function and form; "+
+			fmt.Sprintf("(vi) texts whose case mapping changes their UTF-8 length: %d pairs of texts that are equal ignoring case and differ in byte length (U+0130 / i, U+212A KELVIN SIGN / k, U+023A / U+2C65 - lower-casing shrinks and grows; alone, at the start and the end of a word, in a text of several words), an array of them, an object with such property names and a result with such category / intent names: every function and router test gets every tuple with at least one of these %d values, the other positions from them and %d companions (%d tuples at arity 3; a core of %d + %d at the highest arity: %d in quick, %d in thorough), and every form every such pair; ", len(CasePairs), len(CaseVals), len(CaseCompanions), caseTuples("case", 3), len(CaseCore), len(CaseCoreCompanions), CaseMaxArity("quick"), CaseMaxArity("thorough"))+
 			"(v) templates in run contexts built by the engine from a history: %d flow shapes (call_webhook with / without a saved result, call_resthook, the call inside a child flow; msg / manual / flow_action triggers, a contact with a ticket - every root of the context is non-nil somewhere) each [call] -> [corpus] -> [wait] -> [corpus], x %d HTTP answers (the JSON documents null / true / false / 0 / \"\" / [] / {} / [null] / nested with null members, null with blanks, JSON only after cleaning, a text too long to be saved with the result, empty / non-JSON / truncated bodies, 400 and 410 statuses, a connection error) x {session kept in memory, session marshalled and read back before the resume}; the corpus is derived at run time from the context itself: every property path of the root context of every run down to depth %d (thorough %d), before and after the resume, under %d forms (reference, json(), default(), missing property, index, count, & \"\", = itself); it is evaluated directly through run.EvaluateTemplateValue / EvaluateTemplateText on every run of the waiting session, and by the engine through run.EvaluateTemplate (one send_email per template) in the sprint of the call and in the resumed sprint. "+
 			"Oracle: no panic (recovered and keyed by function and panic site), returns within the CPU limit, stays below the memory cap, run.EvaluateTemplate* report failure exactly when they log an error event. "+
 			"distinct_nontrivial counts calls that were not rejected by the argument-count wrapper, form evaluations, and templates that contain at least one expression or identifier (every enumerated case is distinct by construction).",
